@@ -1,6 +1,8 @@
 package rules
 
 import (
+	_ "embed"
+	"encoding/json"
 	"go/types"
 	"strings"
 
@@ -13,9 +15,19 @@ import (
 // rules still find it by what it does. Each resolver must pick exactly one
 // function, otherwise the anchor stays unresolved (and the rule undecided).
 
+//go:embed baseline_schema.json
+var baselineSchemaJSON []byte
+
 func init() {
 	an.RoleResolver = resolveRole
 	an.CanonicalLocal = canonicalLocal
+	var s struct {
+		Structs an.Schema                      `json:"structs"`
+		Params  map[string]map[string][]string `json:"params"`
+	}
+	if err := json.Unmarshal(baselineSchemaJSON, &s); err == nil {
+		an.BaselineSchema, an.BaselineParams = s.Structs, s.Params
+	}
 }
 
 // canonicalLocal: the local record a function of package engine looks its
@@ -37,7 +49,7 @@ func canonicalLocal(a *ssa.Alloc) string {
 	if a.Comment == "complit" || a.Comment == "" {
 		return ""
 	}
-	return canonicalLocalNames[n.Obj().Name()]
+	return canonicalLocalNames[an.CanonTypeName(n.Obj())]
 }
 
 func resolveRole(p *an.Prog, rel, spec string) *ssa.Function {
